@@ -124,7 +124,7 @@ const (
 	// shared global bit is then cleared on the range); Devanagari half=1.
 	// Ranged kern / liga (no base search) agree on both sides.
 	ClsFeatureMerge = "skew(c) capability: mark attachment base search across glyphs without the lookup mask (ranged / duplicated / forced internal user feature; 6.0.0 stops, newer upstream passes over)"
-	ClsVarRounding  = "tolerance: interpolated values under variation coordinates differ by at most 1 font unit"
+	ClsVarRounding  = "tolerance: interpolated values under variation coordinates differ by at most 1 font unit (offsets of stacked marks: 1 per glyph of the cluster)"
 	ClsGoPanic      = "go side panicked (C01)"
 	ClsCFail        = "reference failed: hb_shape_full returned false"
 )
@@ -592,9 +592,18 @@ func within1(a, b []G) bool {
 		return false
 	}
 	d1 := func(x, y int32) bool { return x-y >= -1 && x-y <= 1 }
+	// an offset placed by fallback mark positioning is a sum of interpolated extents (the
+	// base, the marks stacked before it, the mark itself), each within one unit: the bound
+	// of an offset is the number of glyphs of its cluster
+	per := map[int]int32{}
 	for i := range a {
+		per[a[i].Cluster]++
+	}
+	dn := func(x, y, n int32) bool { return x-y >= -n && x-y <= n }
+	for i := range a {
+		n := per[a[i].Cluster]
 		if a[i].GID != b[i].GID || a[i].Cluster != b[i].Cluster || !d1(a[i].XAdv, b[i].XAdv) || !d1(a[i].YAdv, b[i].YAdv) ||
-			!d1(a[i].XOff, b[i].XOff) || !d1(a[i].YOff, b[i].YOff) {
+			!dn(a[i].XOff, b[i].XOff, n) || !dn(a[i].YOff, b[i].YOff, n) {
 			return false
 		}
 	}
